@@ -318,10 +318,10 @@ def interpolation_shape(P, rep, rule="I1"):
                 else:
                     why = "slerp(%s, %s, f) does not interpolate from the current to the next section" % (srcs[0][:40], srcs[1][:40])
             if not ok and par is not None and par.get("k") == "CallExpr" and par.get("callee") in P.funcs and P.funcs[par["callee"]].body is not None \
-                    and P.funcs[par["callee"]].file == F.file and not is_helper:
+                    and not P.funcs[par["callee"]].qn.startswith("std::") and not is_helper:
                 # the fraction is handed to a multi-statement helper of the same file: the interpolation now lives there, where this
                 # rule (written over the body of `properties`) does not follow it
-                rep.unknown(rule, "%s: section_fraction is handed to the file-local helper %s; this rule reads the body of properties() only" % (
+                rep.unknown(rule, "%s: section_fraction is handed to the helper %s; this rule reads the body of properties() only" % (
                     cls.split("::")[-1], P.funcs[par["callee"]].qn.split("::")[-1]))
                 continue
             if ok:
